@@ -163,6 +163,41 @@ theorem fmtX_width_flagged {κ : Type} (ks : KeySys κ) (io : FloatIO) (m : GMap
       · exact typeFinish_width _ _ _ w hw s h
   | _ => simp [XVal.kind] at hk
 
+/-- **width, every kind but the four whose ToString never looks at the width** (Timespan, Timestamp, Sensitive, type alias): a value
+    that is not a container, rendered under a format with width `w`, is at least `w` runes wide (for Integer / Float / Boolean the
+    letters whose digits come from fmt's float code excepted, as in `fmtVal_width`) -/
+theorem fmtX_width_leaf {κ : Type} (ks : KeySys κ) (io : FloatIO) (m : GMap κ) (ind : Ind) (v : XVal) (hv : v.isContainer = false)
+    (hk : v.kind ≠ .tspan ∧ v.kind ≠ .tstamp ∧ v.kind ≠ .sensitive ∧ v.kind ≠ .talias)
+    (w : Nat) (hw : (getG ks m v).f.width = some w) (hgo : GoOK (getG ks m v).f)
+    (hfl : isFloatLetter (getG ks m v).f.letter = false ∨ (v.kind ≠ .int ∧ v.kind ≠ .float ∧ v.kind ≠ .bool))
+    (s : Str) (h : fmtX ks io m ind v = .text s) : w ≤ s.length := by
+  have hnf : ∀ k, v.kind = k → (k = .int ∨ k = .float ∨ k = .bool) → isFloatLetter (getG ks m v).f.letter = false := by
+    intro k hk' hk''
+    rcases hfl with h' | h'
+    · exact h'
+    · rw [hk'] at h'; rcases hk'' with rfl | rfl | rfl <;> simp at h'
+  cases v with
+  | undef => simp [fmtX, fmtUndef] at h; rw [← h]; exact applyStringFlags_width _ _ _ w hw
+  | dflt => simp only [fmtX] at h; exact fmtDefault_width _ w hw s h
+  | bool b => simp only [fmtX] at h; exact fmtBool_width io _ b w hw hgo (hnf .bool rfl (by simp)) s h
+  | int i => simp only [fmtX] at h; exact fmtInt_width io _ i w hw hgo (hnf .int rfl (by simp)) s h
+  | float bits => simp only [fmtX] at h; exact fmtFloat_width io _ bits w hw hgo (hnf .float rfl (by simp)) s h
+  | str x => simp only [fmtX] at h; exact fmtStr_width _ x w hw s h
+  | regexp src => simp [fmtX, fmtRegexp] at h; rw [← h]; exact applyStringFlags_width _ _ _ w hw
+  | binary bs u => simp only [fmtX] at h; exact fmtBinary_width _ bs u w hw s h
+  | semver t => exact fmtX_width_flagged ks io m ind _ w (by simp [XVal.kind]) hw s h
+  | semverRange t n => exact fmtX_width_flagged ks io m ind _ w (by simp [XVal.kind]) hw s h
+  | uri t => exact fmtX_width_flagged ks io m ind _ w (by simp [XVal.kind]) hw s h
+  | typ name ps => exact fmtX_width_flagged ks io m ind _ w (by simp [XVal.kind]) hw s h
+  | otype name ih => exact fmtX_width_flagged ks io m ind _ w (by simp [XVal.kind]) hw s h
+  | tspan ns => simp [XVal.kind] at hk
+  | tstamp t => simp [XVal.kind] at hk
+  | sensitive x => simp [XVal.kind] at hk
+  | talias name r => simp [XVal.kind] at hk
+  | obj name es => simp [XVal.isContainer] at hv
+  | array vs => simp [XVal.isContainer] at hv
+  | hash es => simp [XVal.isContainer] at hv
+
 /-! ### the container laws, over any key system -/
 
 /-- the children of a container render to the texts `texts` -/
